@@ -802,44 +802,36 @@ def blocks(data, min_len=2, max_len=np.inf, wrap=False, digits=None, only_nonzer
         if only_nonzero and not bool(data[0]):
             return blocks
 
-        # if all values are True or False we can exit
-        if len(blocks) == 1 and len(blocks[0]) == len(data):
+        # if all values are identical there is only one
+        # block and nothing on the ends to combine
+        if len(infl_len) == 1:
             return blocks
 
-        # so now first point equals last point, so the cases are:
-        # - first and last point are in a block: combine two blocks
-        # - first OR last point are in block: add other point to block
-        # - neither are in a block: check if combined is eligible block
+        # so now first point equals last point so the runs on
+        # both ends are two halves of a single wrapped run
 
         # first point is in a block
         first = len(blocks) > 0 and blocks[0][0] == 0
         # last point is in a block
         last = len(blocks) > 0 and blocks[-1][-1] == (len(data) - 1)
 
-        # CASE: first and last point are BOTH in block: combine blocks
-        if first and last:
-            blocks[0] = np.append(blocks[-1], blocks[0])
+        # neither half is a block on its own
+        if last:
             blocks.pop()
-        else:
-            # combined length
-            combined = infl_len[0] + infl_len[-1]
-            # exit if lengths aren't OK
-            if combined < min_len or combined > max_len:
-                return blocks
+        if first:
+            blocks.pop(0)
+
+        # check the length of the combined run
+        combined = infl_len[0] + infl_len[-1]
+        if combined >= min_len and combined <= max_len:
             # new block combines both ends
             new_block = np.append(
                 np.arange(infl[-2], infl[-1]), np.arange(infl[0], infl[1])
             )
-            # we are in a first OR last situation now
             if first:
-                # first was already in a block so replace it with combined
-                blocks[0] = new_block
-            elif last:
-                # last was already in a block so replace with superset
-                blocks[-1] = new_block
+                # keep the combined block where the first block was
+                blocks.insert(0, new_block)
             else:
-                # both are false
-                # combined length generated new block
                 blocks.append(new_block)
 
     return blocks
